@@ -47,7 +47,10 @@ def rule_integer(ctx):
         has_length = ch.choose("length", [False, True])
         has_rule = ch.choose("rule", [False, True])
         format_name = ch.choose("format", ["delimited", "fixed"])
+        # with both a length and a rule every limit of the rule must fit the length
+        limits_fit = ch.choose("rule limits fit the length", [True, False]) if (has_length and has_rule) else True
         made = {}
+        fit_checks = []
 
         @stub
         def range_stub(interp_, args, kwargs):
@@ -55,7 +58,13 @@ def rule_integer(ctx):
             obj = Obj(model.cls("cutplace.ranges.Range"), {"_description": description, "_items": [(1, 5)] if description else None,
                                                           "_lower_limit": 3 if description else None, "_upper_limit": 3 if description else None},
                       label="Range(%r)" % (description,))
-            obj.attrs["validate"] = stub(lambda i, a, k: None)
+            @stub
+            def validate(interp2, args2, kwargs2):
+                fit_checks.append(args2[1])
+                if not limits_fit and len(fit_checks) == 2:
+                    interp2.raise_("cutplace.errors.RangeValueError", Opaque("str", True))
+
+            obj.attrs["validate"] = validate
             made.setdefault("ranges", []).append(obj)
             return obj
 
@@ -74,7 +83,13 @@ def rule_integer(ctx):
         try:
             field = interp.instantiate(ClassRef(model.cls(FIELDS + "IntegerFieldFormat")), ["n", False, length_text, rule_text, data_format], {})
         except AbsRaise as raised:
-            return ("length=%s rule=%s %s" % (has_length, has_rule, format_name), "raise " + exc_name(raised.value), "constructed")
+            return ("length=%s rule=%s %s fit=%s" % (has_length, has_rule, format_name, limits_fit), "raise " + exc_name(raised.value),
+                    "constructed" if limits_fit else "raise InterfaceError")
+        if not limits_fit:
+            return ("length=%s rule=%s %s fit=%s" % (has_length, has_rule, format_name, limits_fit), "constructed", "raise InterfaceError")
+        if has_length and has_rule and len(fit_checks) != 2:
+            return ("length=%s rule=%s %s" % (has_length, has_rule, format_name), "%d of the rule's 2 limits checked against the length" % len(fit_checks),
+                    "both limits checked")
         valid_range = field.attrs.get("valid_range")
         if has_rule:
             expected = "Range('1...5')"
@@ -93,7 +108,7 @@ def rule_integer(ctx):
                 expected = "from-length of %r" % (wanted,)
         return ("length=%s rule=%s %s" % (has_length, has_rule, format_name), actual, expected)
 
-    decide(ctx, "O2.1", "Integer range selection", FIELDS + "IntegerFieldFormat.__init__", init_cell, min_cells=8)
+    decide(ctx, "O2.1", "Integer range selection", FIELDS + "IntegerFieldFormat.__init__", init_cell, min_cells=10)
 
     def value_cell(ch):
         conversion = ch.choose("int()", ["number", "ValueError"])
